@@ -26,16 +26,18 @@ type pureTarget struct {
 	recv, name      string // receiver type name ("" for plain functions) and function name
 	coqName         string
 	effects         bool // a procedure: translated to the list of calls it makes (strings are an abstract type S)
+	returns         bool // a function with several results: translated to WHICH return statement is reached (see returns mode below)
 }
 
 var pureTargets = []pureTarget{
-	{"internal/tree", "github.com/issue9/mux/v9/internal/tree", "node", "priority", "src_node_priority", false},
-	{"internal/tree", "github.com/issue9/mux/v9/internal/tree", "", "isAutoMethod", "src_is_auto_method", false},
-	{"internal/syntax", "github.com/issue9/mux/v9/internal/syntax", "Segment", "IsAmbiguous", "src_is_ambiguous", false},
-	{"internal/syntax", "github.com/issue9/mux/v9/internal/syntax", "Segment", "AmbiguousLen", "src_ambiguous_len", false},
-	{"internal/syntax", "github.com/issue9/mux/v9/internal/syntax", "Segment", "Similarity", "src_similarity", false},
-	{"internal/syntax", "github.com/issue9/mux/v9/internal/syntax", "Segment", "Valid", "src_seg_valid", false},
-	{".", "github.com/issue9/mux/v9", "cors", "handle", "src_cors_handle", true},
+	{"internal/tree", "github.com/issue9/mux/v9/internal/tree", "node", "priority", "src_node_priority", false, false},
+	{"internal/tree", "github.com/issue9/mux/v9/internal/tree", "", "isAutoMethod", "src_is_auto_method", false, false},
+	{"internal/syntax", "github.com/issue9/mux/v9/internal/syntax", "Segment", "IsAmbiguous", "src_is_ambiguous", false, false},
+	{"internal/syntax", "github.com/issue9/mux/v9/internal/syntax", "Segment", "AmbiguousLen", "src_ambiguous_len", false, false},
+	{"internal/syntax", "github.com/issue9/mux/v9/internal/syntax", "Segment", "Similarity", "src_similarity", false, false},
+	{"internal/syntax", "github.com/issue9/mux/v9/internal/syntax", "Segment", "Valid", "src_seg_valid", false, false},
+	{".", "github.com/issue9/mux/v9", "cors", "handle", "src_cors_handle", true, false},
+	{"internal/tree", "github.com/issue9/mux/v9/internal/tree", "Tree", "match", "src_tree_match", false, true},
 }
 
 type atom struct {
@@ -44,11 +46,17 @@ type atom struct {
 
 type pureTr struct {
 	effects bool
-	pi     *pkgInfo
-	atoms  []atom
-	byText map[string]int
-	locals map[string]string // local variable -> Coq type
-	err    error
+	pi      *pkgInfo
+	atoms   []atom
+	byText  map[string]int
+	locals  map[string]string // local variable -> Coq type
+	err     error
+
+	// returns mode (returns.go)
+	returns bool
+	body    *ast.BlockStmt
+	sym     map[types.Object]ast.Expr // local of an uninterpreted type -> its value as a source expression
+	retIdx  map[*ast.ReturnStmt]int   // return statement -> its index in source order
 }
 
 var nonIdent = regexp.MustCompile(`[^A-Za-z0-9]+`)
@@ -91,7 +99,12 @@ func (t *pureTr) kind(e ast.Expr) string {
 	return "?"
 }
 
-func (t *pureTr) text(e ast.Expr) string { return types.ExprString(e) }
+func (t *pureTr) text(e ast.Expr) string {
+	if t.returns {
+		return types.ExprString(t.subst(e))
+	}
+	return types.ExprString(e)
+}
 
 // expression of kind string (effects mode only): constants, locals, atoms of the abstract type S
 func (t *pureTr) sexpr(e ast.Expr) string {
@@ -229,7 +242,18 @@ func (t *pureTr) stmts(ss []ast.Stmt, resKind string) string {
 			args = append(args, t.sexpr(a))
 		}
 		return "SCall " + q(t.text(call.Fun)) + " [" + strings.Join(args, "; ") + "] ::\n  " + t.stmts(rest, resKind)
+	case *ast.DeclStmt:
+		if !t.returns {
+			return t.fail("declaration statement")
+		}
+		if !t.declSym(x) {
+			return "ERR"
+		}
+		return t.stmts(rest, resKind)
 	case *ast.ReturnStmt:
+		if t.returns {
+			return t.retStmt(x)
+		}
 		if t.effects && len(x.Results) == 0 {
 			return "[]"
 		}
@@ -240,6 +264,9 @@ func (t *pureTr) stmts(ss []ast.Stmt, resKind string) string {
 	case *ast.BlockStmt:
 		return t.stmts(append(append([]ast.Stmt{}, x.List...), rest...), resKind)
 	case *ast.AssignStmt:
+		if t.returns && t.assignSym(x) {
+			return t.stmts(rest, resKind)
+		}
 		if len(x.Lhs) != 1 || len(x.Rhs) != 1 {
 			return t.fail("multiple assignment")
 		}
@@ -287,21 +314,36 @@ func (t *pureTr) stmts(ss []ast.Stmt, resKind string) string {
 		}
 		return "let v_" + id.Name + " := (v_" + id.Name + " " + op + " 1)%Z in\n  " + t.stmts(rest, resKind)
 	case *ast.IfStmt:
+		if t.returns {
+			if skip, ok := t.lockOnlyIf(x); !ok {
+				return "ERR"
+			} else if skip {
+				return t.stmts(rest, resKind)
+			}
+		}
+		saved, savedSym := copyMap(t.locals), copySym(t.sym)
+		pre := ""
 		if x.Init != nil {
-			return t.fail("if with an init statement")
+			if !t.returns {
+				return t.fail("if with an init statement")
+			}
+			var ok bool
+			if pre, ok = t.ifInit(x.Init, rest); !ok {
+				return "ERR"
+			}
 		}
 		c := t.expr(x.Cond)
-		saved := copyMap(t.locals)
+		inner, innerSym := copyMap(t.locals), copySym(t.sym)
 		th := t.stmts(append(append([]ast.Stmt{}, x.Body.List...), rest...), resKind)
-		t.locals = copyMap(saved)
+		t.locals, t.sym = copyMap(inner), copySym(innerSym)
 		var el string
 		if x.Else != nil {
 			el = t.stmts(append([]ast.Stmt{x.Else}, rest...), resKind)
 		} else {
 			el = t.stmts(rest, resKind)
 		}
-		t.locals = saved
-		return "(if " + c + "\n   then " + th + "\n   else " + el + ")"
+		t.locals, t.sym = saved, savedSym
+		return pre + "(if " + c + "\n   then " + th + "\n   else " + el + ")"
 	case *ast.SwitchStmt:
 		if x.Init != nil {
 			return t.fail("switch with an init statement")
@@ -335,14 +377,14 @@ func (t *pureTr) stmts(ss []ast.Stmt, resKind string) string {
 			arms = append(arms, arm{"(" + strings.Join(alts, " || ") + ")%bool", cc.Body})
 		}
 		_ = hasDef
-		saved := copyMap(t.locals)
+		saved, savedSym := copyMap(t.locals), copySym(t.sym)
 		out := t.stmts(append(append([]ast.Stmt{}, def...), rest...), resKind)
 		for i := len(arms) - 1; i >= 0; i-- {
-			t.locals = copyMap(saved)
+			t.locals, t.sym = copyMap(saved), copySym(savedSym)
 			b := t.stmts(append(append([]ast.Stmt{}, arms[i].body...), rest...), resKind)
 			out = "(if " + arms[i].cond + "\n   then " + b + "\n   else " + out + ")"
 		}
-		t.locals = saved
+		t.locals, t.sym = saved, savedSym
 		return out
 	}
 	return t.fail("statement form %T", s)
@@ -365,6 +407,8 @@ func translatePure(repo string, loadPkg func(dir, path string) (*pkgInfo, error)
 	sb.WriteString("From Coq Require Import String List ZArith Bool.\nImport ListNotations.\nOpen Scope string_scope.\n\n")
 	sb.WriteString("(* a call made by a translated procedure: callee as written in the source, string arguments *)\n")
 	sb.WriteString("Inductive sev (S : Type) := SCall (callee : string) (args : list S).\nArguments SCall {S}.\n\n")
+	sb.WriteString("(* returns mode: which return statement a function with several results reaches (0-based index in\n   source order) and the source text of the returned expressions, locals of uninterpreted types replaced\n   by the expressions they hold *)\n")
+	sb.WriteString("Inductive mret := MRet (index : Z) (exprs : list string).\n\n")
 	cache := map[string]*pkgInfo{}
 	for _, tg := range pureTargets {
 		pi := cache[tg.pkgdir]
@@ -393,7 +437,8 @@ func translatePure(repo string, loadPkg func(dir, path string) (*pkgInfo, error)
 			sb.WriteString("Definition " + tg.coqName + "_untranslatable : string := " + q("function not found in the source") + ".\n\n")
 			continue
 		}
-		t := &pureTr{pi: pi, byText: map[string]int{}, locals: map[string]string{}, effects: tg.effects}
+		t := &pureTr{pi: pi, byText: map[string]int{}, locals: map[string]string{}, effects: tg.effects,
+			returns: tg.returns, body: fd.Body, sym: map[types.Object]ast.Expr{}, retIdx: returnIndexes(fd.Body)}
 		resKind := "?"
 		if tg.effects {
 			resKind = "E"
@@ -415,6 +460,20 @@ func translatePure(repo string, loadPkg func(dir, path string) (*pkgInfo, error)
 			if fd.Type.Results != nil && len(fd.Type.Results.List) > 0 {
 				t.fail("a procedure translated by its calls must not return a value")
 			} else {
+				body = t.stmts(fd.Body.List, resKind)
+			}
+		} else if tg.returns {
+			resKind = "mret"
+			if fd.Type.Results == nil || fd.Type.Results.NumFields() < 2 {
+				t.fail("returns mode is for functions with several results")
+			} else if hasFuncLit(fd.Body) {
+				t.fail("function literal in the body")
+			} else {
+				for _, f := range fd.Type.Results.List {
+					if len(f.Names) > 0 {
+						t.fail("named results")
+					}
+				}
 				body = t.stmts(fd.Body.List, resKind)
 			}
 		} else if resKind != "Z" && resKind != "bool" {
